@@ -2,12 +2,18 @@
 import sys
 import vlib, pipes, simnet, corr_proto as cp
 
-def kill_restart_run(victim, kill_step, restart_delay, seed, delay, works):
-    a0, a1 = pipes.addr(0), pipes.addr(1)
-    specs = [dict(id='src', kind='src', outputs=a0[0], outputs_required='r1', period=0.05),
-             dict(id='r1', kind='relay', sources=a0[1], outputs=a1[0], outputs_required='sink', work=works[0]),
-             dict(id='sink', kind='sink', sources=a1[1], work=works[1])]
-    p = pipes.Pipeline(specs, seed=seed, delay_ms=delay, prop_exit='none', obey_exit='none')
+def kill_restart_run(victim, kill_step, restart_delay, seed, delay, works, join_ms=(0, 0), balanced=False):
+    a0, a1, a2, a3 = pipes.addr(0), pipes.addr(1), pipes.addr(2), pipes.addr(3)
+    if balanced:   # src (load balancing over two outputs) -> w1, w2 -> sink (balanced sources); the victim is a worker or the source
+        specs = [dict(id='src', kind='src', outputs=[a0[0], a1[0]], outputs_balance=True, period=0.05),
+                 dict(id='r1', kind='relay', sources=a0[1], outputs=a2[0], work=works[0]),
+                 dict(id='r2', kind='relay', sources=a1[1], outputs=a3[0], work=works[1]),
+                 dict(id='sink', kind='sink', sources=[a2[1], a3[1]], sources_balance=True)]
+    else:
+        specs = [dict(id='src', kind='src', outputs=a0[0], outputs_required='r1', period=0.05),
+                 dict(id='r1', kind='relay', sources=a0[1], outputs=a1[0], outputs_required='sink', work=works[0]),
+                 dict(id='sink', kind='sink', sources=a1[1], work=works[1])]
+    p = pipes.Pipeline(specs, seed=seed, delay_ms=delay, prop_exit='none', obey_exit='none', sub_join_ms=join_ms)
     st = dict(killed_at=None, restarted_at=None)
     w = p.world
     def hook(world):
@@ -35,8 +41,21 @@ def main():
         seed = rng.randrange(10 ** 6)
         delay = rng.choice([(0, 0), (0, 30)])
         works = [rng.choice([0, 0.02, 0.2]), rng.choice([0, 0.02, 0.2])]
-        case = dict(victim=victim, kill_step=kill_step, restart_delay=restart_delay, seed=seed, delay_ms=delay, works=works)
-        p, rec, st = kill_restart_run(victim, kill_step, restart_delay, seed, delay, works)
+        # the connections of a restarted filter come back one by one: its subscribers may hear it up to 300 ms after its
+        # request channel works again (the first frames published into the void must be asked for again)
+        join_ms = rng.choice([(0, 0), (0, 0), (50, 300)])
+        balanced = rng.random() < 0.3
+        if balanced and victim == 'sink':
+            victim = 'r1'
+        case = dict(victim=victim, kill_step=kill_step, restart_delay=restart_delay, seed=seed, delay_ms=delay, works=works, join_ms=join_ms, balanced=balanced)
+        p, rec, st = kill_restart_run(victim, kill_step, restart_delay, seed, delay, works, join_ms, balanced)
+        run.count('kill:%s' % ('balanced' if balanced else 'chain'))
+        if balanced and st['restarted_at'] is not None and victim != 'src':
+            # the restarted worker gets frames again (its stale connection is pruned after the connection timeout)
+            got = [e for e in rec.events if e['f'] == victim and e['inc'] == 1 and e['kind'] == 'in']
+            if len(got) < 3:
+                run.violation('heal:worker-starved victim=%s restart_delay=%s got=%d' % (victim, restart_delay, len(got)),
+                              'after killing worker %s and restarting it %.1fs later it was handed only %d frames in 40 s' % (victim, restart_delay, len(got)), case)
         run.seen(('kill', repr(case)))
         run.count('kill:victim=%s' % victim)
         run.count('kill:restart_delay=%s' % restart_delay)
